@@ -2,4 +2,4 @@ From Coq Require Import Extraction ExtrOcamlBasic.
 From Cicada Require Import Base.Chars Base.Tag Model.Tokenizer Model.Cmds Model.Rerender.
 Extraction Language OCaml.
 Extraction "c16_model.ml" parse_line is_complete line_to_cmds wrap_sep_string tokens_to_line rerender is_args_in_token
-  expand_args_for_single_token expand_args expand_args_fixed no_positional seg_tokens env_args_to_command_line c16_classes known_c16.
+  expand_args_for_single_token expand_args no_positional seg_tokens env_args_to_command_line fold_lines fold_lines_fixed no_cont.
